@@ -33,7 +33,7 @@ def run(ctx):
     except ImportError:
         r_c = None
     if r_c is not None and hasattr(r_c, "rule_G1C"):
-        ctx.run_rule("G1C", r_c.rule_G1C)
+        ctx.run_c_rule("G1C", r_c.rule_G1C, ["gnu-x86_64", "msvc-x86_64"] if ctx.tier == "quick" else list(r_c.C_FLAVOURS))
         ctx.run_rule("G1obj", r_c.rule_G1obj)
     try:
         import r_asm
